@@ -68,8 +68,13 @@ def extent_rounding(ctx):
             ctx.bad(R, 'dispatch', ctx.where(fa, y), found=[(T.show(c), p) for c, p in y.guards],
                     expected='path decided by "binsize is not None" only', key=f'{R}|dispatch')
     if len(got['fixed']) != 2 or len(got['var']) != 2:
-        ctx.unrec(R, 'yields', ctx.where(fa), found={k: len(v) for k, v in got.items()},
-                  reason='expected (start, end) yields on the fixed and on the variable path')
+        if 0 < len(ys) < 4 and not [y for y in ys if y.loops]:
+            ctx.bad(R, 'yields', ctx.where(fa), found={k: len(v) for k, v in got.items()},
+                    expected='(first bin, end bin) yielded on the fixed and on the variable path',
+                    reason='a missing yield turns the extent into a 1-tuple / shifts end into start', key=f'{R}|yield-count')
+        else:
+            ctx.unrec(R, 'yields', ctx.where(fa), found={k: len(v) for k, v in got.items()},
+                      reason='expected (start, end) yields on the fixed and on the variable path')
         return
     why = {
         'fixed_lo': 'first bin = offset of the chromosome + floor(start / binsize)',
@@ -212,6 +217,9 @@ def entries(ctx):
     ''', {'self': V('self'), 'args': V('args'), 'kwargs': V('kwargs')}, 'cooler.core._selectors')
     r = returns(f1)
     ctx.eq(R, 'RangeSelector1D.fetch', r[0].value if r else None, env['out'], ctx.where(f1), 'fetch = slice on the extent')
+    from ..refcompare import compare
+    from .C14 import REF_SEL_FETCH
+    compare(ctx, 'C04.3-selector-fetch', f1, REF_SEL_FETCH, why='fetch = slice on the fetched extent (when a fetcher exists)')
     # the selector is constructed with that fetcher
     for q, name in (('cooler.api.Cooler.bins', 'bins'), ('cooler.api.Cooler.pixels', 'pixels')):
         fa = ctx.fa(q)
